@@ -6,7 +6,8 @@ import Dawn.Model.Diff
     diffr <routeSize> <depth> <old> <new>  → the same with `routeSize` instead of `defaultRouteSize` (restart path)
     diffold <depth> <old> <new>            → `DiffDepth` as it was before the repair of D5 (sides after the swap)
     eq    <depth> <a> <b>                  → `true` | `false` | `err depth`
-    env   <old|none> <new>                 → `never` | `same` | `changed <hex of reason> <diff>` | `error <hex>` | `panic`
+    env   <0|1> <old|none> <new>           1: the two environments have the same encoding
+                                           → `never` | `same` | `changed <hex of reason> <diff>` | `changed-opaque` | `error <hex>` | `panic`
 
   values:  s<hex> string, b<hex> bytes (`s-`, `b-` empty), t(v,…) tuple, l(v,…) list, d(k:v,…) dict
   diffs:   nil | L(old,new) | S(old,new,[e;…]) | M(old,new,{k>e;…})
@@ -103,13 +104,14 @@ def step (line : String) : String :=
       | .ok false => "false"
       | .error e => showErr e
     | _, _, _ => "bad-input"
-  | ["env", o, n] =>
+  | ["env", se, o, n] =>
     let old := if o == "none" then some none else (parseValue o).map some
     match old, parseValue n with
-    | some old, some new => match diffEnv old new with
+    | some old, some new => match diffEnv old (se == "1") new with
       | .neverRun => "never"
       | .same => "same"
       | .changed r d => "changed " ++ hexStr r ++ " " ++ showDiff d
+      | .changedOpaque => "changed-opaque"
       | .error e => "error " ++ hexStr e
       | .panic => "panic"
     | _, _ => "bad-input"
